@@ -45,10 +45,11 @@ def run_harness(ctx, seed, rounds, permille, timeout=300):
         raise HarnessProblem("crash", "harness build failed: " + msg)
     r = common.run([exe, str(seed), str(rounds), str(permille)], timeout=timeout)
     if r.returncode == 124:
-        # a wall-clock limit alone is no verdict (machine load): once more, alone, with ten times the limit
-        r = common.run([exe, str(seed), str(rounds), str(permille)], timeout=10 * timeout)
+        # a wall-clock limit alone is no verdict (machine load): once more, alone, with three times the limit (a normal run takes
+        # seconds; a lost wake-up hangs for ever, and the whole check has to end with a verdict well inside an hour)
+        r = common.run([exe, str(seed), str(rounds), str(permille)], timeout=3 * timeout)
         if r.returncode == 124:
-            raise HarnessProblem("hang", "no exit within %d s (second run; the first gave up after %d s)" % (10 * timeout, timeout))
+            raise HarnessProblem("hang", "no exit within %d s (second run; the first gave up after %d s)" % (3 * timeout, timeout))
     if r.returncode != 0:
         raise HarnessProblem("crash", "harness failed rc=%s: %s" % (r.returncode, (r.stderr or "")[-1500:]))
     return r.stdout
@@ -321,6 +322,10 @@ def correspond(ctx):
         alltr += tr
         for k, v in st.items():
             total[k] = total.get(k, 0) + v
+        if any(str(x.get("key", "")).endswith(":hang") for x in f):
+            # callers that never return are already a violation; every further seed would wait out the same time limits
+            total["seeds_skipped_after_a_hang"] = nseeds - 1 - i
+            break
     if not alltr and not mism and not fails:
         mism.append({"what": "nothing was recorded: no thread trace in %d runs" % nseeds})
     distinct = len(set(tuple((e.kind, e.ok & 1, e.a == 18446744073709551615) for e in t) for (_, t, _, _, _) in alltr))
